@@ -10,14 +10,21 @@ import contracts                                        # noqa: E402
 from pyvc.contracts import REGISTRY, find_function, DynamicLoops, loop_shape    # noqa: E402
 contracts.load_all()
 out = {}
+plist = {}
 for c in REGISTRY.by_name.values():
-    if c.trusted or c.mode not in ('full', 'slice') or not c.loops or isinstance(c.loops, DynamicLoops):
+    if c.trusted or c.mode not in ('full', 'slice'):
         continue
     try:
         fn = find_function(c.qualname)[1]
     except Exception as e:
         print('skip', c.qualname, e)
         continue
+    a = fn.args
+    plist[c.qualname] = [x.arg for x in a.posonlyargs + a.args + a.kwonlyargs]
+    if not c.loops or isinstance(c.loops, DynamicLoops):
+        continue
     out[c.qualname] = loop_shape(fn)
+json.dump(plist, open(os.path.join(HERE, 'contract_param_lists.json'), 'w'), indent=1, sort_keys=True)
+print(len(plist), 'parameter lists written')
 json.dump(out, open(os.path.join(HERE, 'contract_loop_shapes.json'), 'w'), indent=1, sort_keys=True)
 print(len(out), 'loop shapes written')
